@@ -29,6 +29,10 @@ if [ "$name:$k" = "$plan" ]; then
   printf 'FAULT\t%s\t%s\n' "$n" "$name:$k" >> "$CTL/log"
   hit=1
 fi
+if [ "$name:$k:late" = "$plan" ]; then      # the tool does its work (writes its output) and THEN reports failure
+  printf 'FAULT\t%s\t%s\n' "$n" "$name:$k:late" >> "$CTL/log"
+  hit=2
+fi
 exec 9>&-
 if [ $hit = 1 ]; then exit 97; fi
 nonce=""; [ -f "$CTL/nonce" ] && nonce=$(<"$CTL/nonce")
@@ -47,7 +51,9 @@ case "$name" in
     # the rendered job options are EXECUTED (unmodified) against the stand-in EventLoop / SampleHandler in /jobfw
     [ -f "$1" ] || exit 4
     [ -f built.marker ] || exit 5
-    VM_NONCE="$nonce" VM_ROOT="__ROOT__" PYTHONDONTWRITEBYTECODE=1 exec /usr/bin/python3 "__JOBFW__/jobrun.py" atlas "$@" ;;
+    VM_NONCE="$nonce" VM_ROOT="__ROOT__" PYTHONDONTWRITEBYTECODE=1 /usr/bin/python3 "__JOBFW__/jobrun.py" atlas "$@"; rc=$?
+    if [ $hit = 2 ]; then exit 97; fi
+    exit $rc ;;
   mkedanlzr)
     /usr/bin/mkdir "$1" || exit 3
     /usr/bin/mkdir "$1/src" "$1/plugins" "$1/python" ;;
@@ -59,7 +65,9 @@ case "$name" in
     # the rendered configuration is EXECUTED (unmodified) and the process it defines is run by the stand-in in /jobfw
     [ -f "$1" ] || exit 4
     [ -f built.marker ] || exit 5
-    VM_NONCE="$nonce" VM_ROOT="__ROOT__" PYTHONDONTWRITEBYTECODE=1 exec /usr/bin/python3 "__JOBFW__/jobrun.py" cms "$1" ;;
+    VM_NONCE="$nonce" VM_ROOT="__ROOT__" PYTHONDONTWRITEBYTECODE=1 /usr/bin/python3 "__JOBFW__/jobrun.py" cms "$1"; rc=$?
+    if [ $hit = 2 ]; then exit 97; fi
+    exit $rc ;;
   root)
     last="${@: -1}"
     in=$(echo "$last" | /usr/bin/sed -n 's/.*copy_root_tree\.C("\([^"]*\)","\([^"]*\)").*/\1/p')
@@ -70,9 +78,12 @@ case "$name" in
     # the rendered macro, compiled against the stand-in ROOT classes (mc/standin/jobfw/vm_root_macro.h), is what runs
     [ -x "__JOBFW__/macro_bin" ] || exit 12
     /usr/bin/cmp -s "$script" "__JOBFW__/macro.src" || exit 11
-    exec "__JOBFW__/macro_bin" "$in" "$out" ;;
+    "__JOBFW__/macro_bin" "$in" "$out"; rc=$?
+    if [ $hit = 2 ]; then exit 97; fi
+    exit $rc ;;
   *) exit 127 ;;
 esac
+if [ $hit = 2 ]; then exit 97; fi
 '''
 
 TOOLS = ["mkdir", "cp", "cat", "chmod", "rm", "dirname", "cmake", "make", "python", "sudo", "mkedanlzr", "scram", "cmsRun", "root", "xrdcp",
